@@ -32,7 +32,7 @@ def run(ck):
     counter = [ck.shard * 4]
     i = 0
     try:
-        while not ck.out_of_time():
+        while ck.more(min_cases=500 if ck.tier == "quick" else 0):   # not by wall clock alone (load: see DESIGN 8.4b)
             i += 1
             if not ck.mine(i):
                 continue
@@ -133,7 +133,7 @@ class History(object):
             return
         rounds = 6 if self.ck.tier == "quick" else 10
         for r in range(rounds):
-            if self.ck.out_of_time():
+            if not self.ck.more(min_cases=500 if self.ck.tier == "quick" else 0):
                 break
             fam = FAMILIES[self.counter[0] % len(FAMILIES)]
             self.counter[0] += 1
